@@ -24,13 +24,13 @@ type vC02Probe struct {
 	qclass uint16
 	dname  *[2]vC02Name // owner, target
 	// observed
-	ne, nd, dl       int
-	ag, agp, ags     int
-	agi, agpi, agsi  []int
-	eff              vC02Name // effective (DNAME-rewritten) question name
-	effStr           string
-	note             string
-	fails            []vC02Failure
+	ne, nd, dl      int
+	ag, agp, ags    int
+	agi, agpi, agsi []int
+	eff             vC02Name // effective (DNAME-rewritten) question name
+	effStr          string
+	note            string
+	fails           []vC02Failure
 }
 
 // one verdict of a probe that contradicts the ground truth
@@ -95,7 +95,33 @@ var vC02QTypes = []uint16{
 	dns.TypeNone, dns.TypeOPT, dns.TypeNSEC, dns.TypeRRSIG, dns.TypeMX, dns.TypeAXFR,
 }
 
+// vC02FlipSome toggles the case of about half the ASCII letters of every label, in both directions:
+// the spelling of a name in a zone file, on the wire (RFC 6840 s5.1 keeps the case of NextDomain) and
+// in a 0x20-mixed query are independent of one another.
+func vC02FlipSome(r *rand.Rand, n vC02Name) vC02Name {
+	o := make(vC02Name, len(n))
+	for i, l := range n {
+		c := append([]byte(nil), l...)
+		for j, b := range c {
+			if r.Intn(2) == 0 {
+				if b >= 'a' && b <= 'z' {
+					c[j] = b - 32
+				} else if b >= 'A' && b <= 'Z' {
+					c[j] = b + 32
+				}
+			}
+		}
+		o[i] = c
+	}
+	return o
+}
+
 func (g *vC02Gen) qtypeFor(z *vC02Zone, q vC02Name) uint16 {
+	// below (or at) a zone cut the parent-side type DS and the child-side types are judged differently
+	// by every route: ask both kinds often
+	if how := z.existsHow(q); how == "below-cut" && g.r.Intn(3) == 0 {
+		return dns.TypeDS
+	}
 	if nd := z.owner(q); nd != nil && g.r.Intn(6) == 0 {
 		return nd.types[g.r.Intn(len(nd.types))]
 	}
@@ -394,6 +420,14 @@ func vC02NsecCase(tr *vC02Trace, g *vC02Gen, z *vC02Zone, fixed []vC02FixedProbe
 	if len(recs) > 14 {
 		recs = recs[:14]
 	}
+	// the zone file's / the wire's spelling: in a quarter of the cases every owner and NextDomain is
+	// re-spelled independently, letter by letter, at every label (content and genuineness unchanged)
+	if fixed == nil && r.Intn(4) == 0 {
+		for i := range recs {
+			recs[i].owner = vC02FlipSome(r, recs[i].owner)
+			recs[i].next = vC02FlipSome(r, recs[i].next)
+		}
+	}
 
 	var rrs []dns.RR
 	for _, rc := range recs {
@@ -476,8 +510,8 @@ func vC02NsecCase(tr *vC02Trace, g *vC02Gen, z *vC02Zone, fixed []vC02FixedProbe
 					p.q = rc.owner
 				}
 			}
-			if r.Intn(6) == 0 {
-				p.q = vC02UpperSome(r, p.q)
+			if r.Intn(3) == 0 { // 0x20-mixed query spelling, independent of the records' spelling
+				p.q = vC02FlipSome(r, p.q)
 			}
 			p.qtype = g.qtypeFor(z, p.q)
 			p.qclass = g.qclass()
@@ -660,7 +694,9 @@ func vC02NsecCase(tr *vC02Trace, g *vC02Gen, z *vC02Zone, fixed []vC02FixedProbe
 }
 
 // vC02Exhaustive: every zone over the label alphabet {a, b, *} below the apex "e."
-//   (A) owners of depth <= 2, at most 4 of them;  (B) owners of depth <= 3, at most 2 of them;
+//
+//	(A) owners of depth <= 2, at most 4 of them;  (B) owners of depth <= 3, at most 2 of them;
+//
 // each with every choice of at most one special owner (delegation without DS, delegation with DS,
 // DNAME — never at a wildcard); every non-empty subset of the genuine chain; every question name
 // of the same universe (plus the apex) for types A and DS.  Every verdict is judged by the Go
